@@ -307,3 +307,12 @@ K("awkward_NumpyArray_getitem_next_null",
   loops={"L0": ["0 <= i"]},
   notes="the source buffer's byte length is not a parameter: it is the ghost ghost_nfrom the caller's positions must stay below",
   serves=["C01", "C12", "C13"])
+
+
+# ---- C03: gaps between successive distinct parents (the first one counted from -1): each gap is positive and
+# measured from the largest parent seen so far
+K("awkward_ListOffsetArray_reduce_nonlocal_findgaps_64",
+  loops={"L0": ["0 <= i", "0 - 1 <= last", "forall(q, 0, i, parents[q] <= last)",
+                "last == 0 - 1 or exists(q, 0, i, parents[q] == last)"]},
+  store_asserts={"gaps": ["at == k", "value == parents[i] - last", "value > 0"]},
+  serves=["C03", "C12", "C13"])
